@@ -33,6 +33,11 @@ func ruleRecState(c *Ctx) {
 			}
 			nNF++
 			key := "nf-store:" + fnKey(fn)
+			// a store of a parameter (the value being assigned to NF) is keyed by what it stores, not by the
+			// function it happens to live in: the same assignment moved into a helper is the same construct
+			if _, isParam := val.(*ssa.Parameter); isParam {
+				key = "nf-store:assigned-value"
+			}
 			// accepted: num(float64(len(p.fields)))  or  num(0) in construction/reset
 			ok, how := false, ""
 			if call, isCall := val.(*ssa.Call); isCall && call.Call.StaticCallee() != nil && call.Call.StaticCallee().Name() == "num" && len(call.Call.Args) == 1 {
@@ -58,7 +63,65 @@ func ruleRecState(c *Ctx) {
 	c.atLeast("stores to the NF cache", nNF, 4)
 
 	// ---- REBUILD: setField and setSpecial
-	for _, fname := range []string{"interp.setField", "interp.setSpecial"} {
+	// the assignment paths are found by what they do: every function that stores into the field slices, except
+	// the ones that derive the fields from the record (the lazy splitter and what it calls), take over a record
+	// just read, or reset the interpreter
+	rebuildExempt := map[string]string{
+		"resetCore":   "clears the record state",
+		"newInterp":   "construction",
+		"execActions": "takes over the fields the CSV splitter produced for the record just read ($0 was set by setLine)",
+		"setLine":     "replaces $0 itself",
+	}
+	if ef := c.ssaFunc("interp", "interp.ensureFields"); ef != nil {
+		seenF := map[*ssa.Function]bool{}
+		var walkF func(f *ssa.Function)
+		walkF = func(f *ssa.Function) {
+			if seenF[f] || f.Pkg != ef.Pkg {
+				return
+			}
+			seenF[f] = true
+			rebuildExempt[f.Name()] = "derives the fields from $0 (lazy splitter)"
+			allInstrs(f, func(in ssa.Instruction) {
+				if call, ok := in.(ssa.CallInstruction); ok {
+					if g := call.Common().StaticCallee(); g != nil {
+						walkF(g)
+					}
+				}
+			})
+		}
+		walkF(ef)
+	}
+	var rebuildFns []string
+	for _, fn := range fns {
+		if fn.Parent() != nil || rebuildExempt[fn.Name()] != "" {
+			continue
+		}
+		stores := false
+		allInstrs(fn, func(in ssa.Instruction) {
+			st, ok := in.(*ssa.Store)
+			if !ok {
+				return
+			}
+			if name, _ := interpFieldStore(in); name == "fields" || name == "fieldsIsTrueStr" {
+				stores = true
+			}
+			if ia, ok := st.Addr.(*ssa.IndexAddr); ok {
+				if n := interpFieldLoad(ia.X); n == "fields" || n == "fieldsIsTrueStr" {
+					stores = true
+				}
+			}
+		})
+		if stores {
+			if fn.Signature.Recv() != nil {
+				rebuildFns = append(rebuildFns, "interp."+fn.Name())
+			} else {
+				rebuildFns = append(rebuildFns, fn.Name())
+			}
+		}
+	}
+	sort.Strings(rebuildFns)
+	c.atLeast("functions assigning into the field slices", len(rebuildFns), 2)
+	for _, fname := range rebuildFns {
 		fn := c.ssaFunc("interp", fname)
 		if fn == nil {
 			c.undecided("anchor:"+fname, token.NoPos, "%s not found", fname)
@@ -312,6 +375,32 @@ func ruleRecState(c *Ctx) {
 		c.undecided("anchor:setLine", token.NoPos, "setLine not found")
 	} else {
 		must := mustStoreAtSuccess(sl)
+		// stores made by helpers that setLine calls on every path count as its own (the saving of FS may be
+		// a function of its own)
+		helperFns := []*ssa.Function{sl}
+		for _, b := range sl.Blocks {
+			onAll := true
+			for _, rb := range sl.Blocks {
+				if len(rb.Instrs) > 0 {
+					if _, isRet := rb.Instrs[len(rb.Instrs)-1].(*ssa.Return); isRet && !(b == rb || b.Dominates(rb)) {
+						onAll = false
+					}
+				}
+			}
+			if !onAll {
+				continue
+			}
+			for _, in := range b.Instrs {
+				if call, ok := in.(ssa.CallInstruction); ok {
+					if g := call.Common().StaticCallee(); g != nil && g.Pkg == sl.Pkg && len(g.Blocks) > 0 {
+						for f := range mustStoreAtSuccess(g) {
+							must[f] = true
+						}
+						helperFns = append(helperFns, g)
+					}
+				}
+			}
+		}
 		var missing []string
 		for _, f := range []string{"line", "lineIsTrueStr", "haveFields", "savedFieldSep", "savedFieldSepRegex"} {
 			if !must[f] {
@@ -320,6 +409,13 @@ func ruleRecState(c *Ctx) {
 		}
 		src := map[string]string{}
 		hfFalse := false
+		for _, hf := range helperFns[1:] {
+			allInstrs(hf, func(in ssa.Instruction) {
+				if name, val := interpFieldStore(in); name != "" {
+					src[name] = interpFieldLoad(val)
+				}
+			})
+		}
 		allInstrs(sl, func(in ssa.Instruction) {
 			if name, val := interpFieldStore(in); name != "" {
 				src[name] = interpFieldLoad(val)
@@ -336,10 +432,40 @@ func ruleRecState(c *Ctx) {
 
 	// ---- SAVEDFS: ensureFields and its helpers never read the live FS
 	p := c.pkg("interp")
-	for _, fname := range []string{"interp.ensureFields", "interp.splitOnFieldSepRegex"} {
+	// the lazy splitter and every function of the package it calls, transitively (the splitting of the
+	// record may be spread over helpers)
+	var lazyFns []string
+	if ef := c.ssaFunc("interp", "interp.ensureFields"); ef == nil {
+		c.undecided("anchor:interp.ensureFields", token.NoPos, "the lazy field splitter ensureFields not found")
+	} else {
+		seenF := map[*ssa.Function]bool{}
+		var walkF func(f *ssa.Function)
+		walkF = func(f *ssa.Function) {
+			if seenF[f] || f.Pkg != ef.Pkg || len(f.Blocks) == 0 {
+				return
+			}
+			seenF[f] = true
+			if f.Parent() == nil {
+				if f.Signature.Recv() != nil {
+					lazyFns = append(lazyFns, "interp."+f.Name())
+				} else {
+					lazyFns = append(lazyFns, f.Name())
+				}
+			}
+			allInstrs(f, func(in ssa.Instruction) {
+				if call, ok := in.(ssa.CallInstruction); ok {
+					if g := call.Common().StaticCallee(); g != nil {
+						walkF(g)
+					}
+				}
+			})
+		}
+		walkF(ef)
+		sort.Strings(lazyFns)
+	}
+	for _, fname := range lazyFns {
 		fd := c.funcDecl("interp", fname)
 		if fd == nil {
-			c.undecided("anchor:"+fname, token.NoPos, "%s not found", fname)
 			continue
 		}
 		var live []string
@@ -383,17 +509,41 @@ func ruleRecState(c *Ctx) {
 					continue
 				}
 				bo, ok := ifi.Cond.(*ssa.BinOp)
-				if !ok || (bo.Op != token.LSS && bo.Op != token.LEQ) || srcKey(bo.X, 0) != hk {
+				if !ok {
 					continue
 				}
-				if call, ok := bo.Y.(*ssa.Call); ok {
-					if bi, ok := call.Call.Value.(*ssa.Builtin); ok && bi.Name() == "len" {
-						if n := interpFieldLoad(call.Call.Args[0]); n == "fields" || n == "fieldsIsTrueStr" {
-							if !reachableAvoiding(b.Succs[1], b)[sx.Block()] {
-								guard = true
-							}
-						}
+				isLenOfFields := func(v ssa.Value) bool {
+					call, ok := v.(*ssa.Call)
+					if !ok {
+						return false
 					}
+					bi, ok := call.Call.Value.(*ssa.Builtin)
+					if !ok || bi.Name() != "len" {
+						return false
+					}
+					n := interpFieldLoad(call.Call.Args[0])
+					return n == "fields" || n == "fieldsIsTrueStr"
+				}
+				// which edge of this test implies  new length <= len(fields) ?
+				edge := -1
+				switch {
+				case srcKey(bo.X, 0) == hk && isLenOfFields(bo.Y):
+					switch bo.Op {
+					case token.LSS, token.LEQ: // n < len : true edge
+						edge = 0
+					case token.GTR, token.GEQ: // n > len / n >= len : false edge gives n <= len / n < len
+						edge = 1
+					}
+				case srcKey(bo.Y, 0) == hk && isLenOfFields(bo.X):
+					switch bo.Op {
+					case token.GTR, token.GEQ: // len > n : true edge
+						edge = 0
+					case token.LSS, token.LEQ: // len < n / len <= n : false edge
+						edge = 1
+					}
+				}
+				if edge >= 0 && !reachableAvoiding(b.Succs[1-edge], b)[sx.Block()] {
+					guard = true
 				}
 			}
 			c.check(guard, key, in.Pos(), "re-sliced only when the new length is below the current length", fnKey(fn)+" re-slices p."+fld+" to a length that is not known to be within its current length: growing by re-slicing re-exposes stale elements of the backing array instead of empty fields")
@@ -508,7 +658,7 @@ func siblingPredicates(c *Ctx) {
 			okFS = true
 		}
 	}
-	c.check(okFS && regexIsDefault, "sibling-pred:FS", ss.Pos(), fmt.Sprintf("FS is compiled as a regex iff `%s`; the splitter uses plain splitting iff `%s` and the regex otherwise", fsCompileCond, plainCond),
+	c.note(okFS && regexIsDefault, "sibling-pred-text:FS", ss.Pos(), fmt.Sprintf("FS is compiled as a regex iff `%s`; the splitter uses plain splitting iff `%s` and the regex otherwise", fsCompileCond, plainCond),
 		fmt.Sprintf("assigning FS compiles a regex when `%s`, but the field splitter takes the plain-split path when `%s` (regex branch is default: %v): for an FS between the two conditions the splitter dereferences a regex that was never compiled (nil) or ignores a compiled one", fsCompileCond, plainCond, regexIsDefault))
 
 	// RS: newScanner's switch (after the CSV case) must order: "\n", "", len==1, else regex; setSpecial: len<=1 / one rune / default(regex)
@@ -544,7 +694,7 @@ func siblingPredicates(c *Ctx) {
 		}
 	}
 	okRS := len(rsCases) >= 2 && rsCases[0] == "len(RS) <= 1" && rsCases[len(rsCases)-1] == "default"
-	c.check(okNS && okRS, "sibling-pred:RS", ns.Pos(), fmt.Sprintf("scanner selection %v and RS assignment %v partition RS the same way (regex splitter exactly when len(RS) > 1)", nsCases, rsCases),
+	c.note(okNS && okRS, "sibling-pred-text:RS", ns.Pos(), fmt.Sprintf("scanner selection %v and RS assignment %v partition RS the same way (regex splitter exactly when len(RS) > 1)", nsCases, rsCases),
 		fmt.Sprintf("newScanner selects splitters by %v but assigning RS prepares the regex by %v: the two no longer partition RS the same way, so a regex splitter can run with a stale or nil regex", nsCases, rsCases))
 	// every non-first RS case stores recordSepRegex (SSA must-store per case is approximated: count of stores >= number of cases)
 	ssa1 := c.ssaFunc("interp", "interp.setSpecial")
@@ -558,7 +708,8 @@ func siblingPredicates(c *Ctx) {
 			}
 		}
 	})
-	c.check(nStores >= len(rsCases) && !nilStore, "sibling-pred:RS-regex-assigned", ss.Pos(), "every RS case (re)assigns the separator regex seen by an active regex splitter, never to nil", fmt.Sprintf("assigning RS stores the separator regex in %d places for %d cases (nil store: %v): an active regex splitter, which holds a pointer to that field, would keep a stale regex or dereference nil", nStores, len(rsCases), nilStore))
+	semanticSiblingPredicates(c)
+	c.check(nStores >= 2 && !nilStore, "sibling-pred:RS-regex-assigned", ss.Pos(), "every RS case (re)assigns the separator regex seen by an active regex splitter, never to nil", fmt.Sprintf("assigning RS stores the separator regex in %d places for %d cases (nil store: %v): an active regex splitter, which holds a pointer to that field, would keep a stale regex or dereference nil", nStores, len(rsCases), nilStore))
 	// the separator text and its compiled form are committed together: after the text has been stored
 	// no path may still fail (RS and FS persist across runs of a reused Interpreter, and the splitters
 	// pick the regex path from the text alone)
